@@ -166,6 +166,34 @@ example : ctor (.td 2500) = some (5 / 2) := by simp [ctor]; norm_num
 example : (1 : ℚ) / 1000 ≤ (Period.td 1).requestedMs := by simp [Period.requestedMs]
 example : ctor (.ms 0) = none := by simp [ctor]
 
+/-! ## 2c. restart: `start()` moves the grid origin to the current time, whatever `_next_timeout` held before -/
+
+/-- `start()` in ANY state (never started, stopped with a stale `_next_timeout` in the past or in the future, already
+running): when no invocation is in flight it arms exactly one deadline, one period after the current time — the point
+`k = 1` of the grid `now + k·p` of this start; when an invocation is in flight it arms nothing and leaves
+`_next_timeout = now`, so the deadline armed when that invocation finishes is, by `on_grid` / `iter_on_grid` with
+`start := now`, `k := 0`, on the same new grid and (`first_grid_point_after_now`) at most one period ahead. -/
+theorem restart_on_new_grid (m : M) (hj : m.pc.jitter = 0) (hp : 0 < m.pc.callbackTime) :
+    (m.busy = false → (startM m).2 = [.sched (m.now + m.pc.callbackTime / 1000)] ∧
+        (startM m).1.pc.next = m.now + m.pc.callbackTime / 1000) ∧
+    (m.busy = true → (startM m).2 = [] ∧ (startM m).1.pc.next = m.now ∧
+        (startM m).1.pc.callbackTime = m.pc.callbackTime ∧ (startM m).1.timers.length ≤ m.timers.length) := by
+  have hne : m.pc.callbackTime ≠ 0 := ne_of_gt hp
+  constructor
+  · intro hb
+    unfold startM
+    cases hh : m.handle <;>
+      simp [hb, scheduleNext, updateNext, skipped, periodSec, hj, floor_eq]
+  · intro hb
+    unfold startM
+    cases hh : m.handle <;> simp [hb, List.length_filter_le]
+
+/-! non-vacuity: stopped with a stale deadline 1000.1 in the future, restarted at 1000.03 → 1000.13, not 1000.2 -/
+example : (startM { init 100 (100003 / 100) [] with pc := ⟨100, 0, 10001 / 10⟩ }).2 =
+    [.sched (100003 / 100 + 100 / 1000)] :=
+  ((restart_on_new_grid { init 100 (100003 / 100) [] with pc := ⟨100, 0, 10001 / 10⟩ } rfl
+    (by show (0 : ℚ) < 100; norm_num)).1 rfl).1
+
 /-! ## 2b. with jitter `|j| < 2`, `random.random() ∈ [0,1)` -/
 
 theorem periodSec_jitter_bounds (s : PC) (r : ℚ) (hp : 0 < s.callbackTime) (h0 : 0 ≤ r) (h1 : r < 1) :
